@@ -51,7 +51,8 @@ let ap_of s = (s = "t")
 
 let () = run_lines (fun toks ->
   match toks with
-  | "params" :: _ -> join [sz Model.giv_multiplier; sz Model.giv_modulo; sz Model.giv_halfmod; string_of_bool Model.giv_ctor_normalises]
+  | "params" :: _ -> join [sz Model.giv_multiplier; sz Model.giv_modulo; sz Model.giv_halfmod; string_of_bool Model.giv_ctor_normalises;
+                           string_of_bool Model.giv_randiter_clamps; string_of_bool Model.poly_random_resizes]
   | "lcg" :: form :: seed :: n :: rest ->
     let st = state_of_seed (zs seed) (match rest with s :: _ -> Some s | [] -> None) in
     let n = int_of_string n in
@@ -103,14 +104,18 @@ let () = run_lines (fun toks ->
         | Some (a, s') -> out := sz a :: !out; s := s')
     done;
     if !dead then "NONE" else join (List.rev !out) ^ " | " ^ sz !s
-  | "poly" :: kind :: p :: seed :: d :: bits :: _ ->
+  | "poly" :: kind :: p :: seed :: d :: bits :: rest ->
     let p = zs p and d = nat (int_of_string d) and bits = zs bits in
     let st = Model.giv_ctor_nz (zs seed) in
+    let r0 = (match rest with n :: _ -> List.init (int_of_string n) (fun i -> if i mod 2 = 0 then zs "1" else z0) | [] -> []) in
     (match kind with
-     | "gfq" -> let (cs, s') = Model.poly_random_gfq bits p d st in join (List.map sz cs) ^ " | " ^ sz s'
-     | _ -> (match Model.poly_random fuel_nz (init_of kind p) d st with
-         | None -> "NONE"
-         | Some (cs, s') -> join (List.map sz cs) ^ " | " ^ sz s'))
+     | "gfq" -> let (cs, s') = Model.poly_random_gfq_into bits p d r0 st in
+       let (cs2, _) = Model.poly_random_gfq bits p d st in
+       if cs <> cs2 then "INTO-DIFFERS" else join (List.map sz cs) ^ " | " ^ sz s'
+     | _ -> (match Model.poly_random_into fuel_nz (init_of kind p) d r0 st, Model.poly_random fuel_nz (init_of kind p) d st with
+         | None, _ -> "NONE"
+         | Some (cs, s'), Some (cs2, _) when cs = cs2 -> join (List.map sz cs) ^ " | " ^ sz s'
+         | Some _, _ -> "INTO-DIFFERS"))
   | "int" :: op :: ap :: rest ->
     let (args, tr) = split_bar [] rest in
     let (orc, bad, used) = mk_orc tr in
@@ -170,22 +175,28 @@ let () = run_lines (fun toks ->
         out := (show st1 ^ (match o with Some y -> ":" ^ sz y | None -> "")) :: !out) ops;
     fin (join (List.rev !out)) bad used (List.length tr)
   | "ringseq" :: kind :: p :: seed :: size :: bits :: ops :: _ ->
+    (* the iterator as an object (Model.ri_ctor / ri_run): class, constructor (timer = [] : a non-zero seed never reads it), request sequence *)
     let p = zs p and size = zs size and bits = zs bits in
-    let s = ref (Model.giv_ctor_nz (zs seed)) and out = ref [] and dead = ref false in
-    let plain st : Model.z * Model.z = (match kind with
-      | "mod" | "bal" -> Model.ring_random (init_of kind p) st
-      | "id" -> Model.general_randiter (fun x -> x) size st
-      | "gfq" -> Model.gfq_random bits p (Model.giv_randiter_size size p) st
-      | "gf2" -> Model.gf2_random st
+    let (cls, draw) : Model.ri_class * Model.ri_draw_fn = (match kind with
+      | "mod" | "bal" -> (Model.RIModular, (fun _ st -> Model.ring_random (init_of kind p) st))
+      | "id" -> (Model.RIGeneral, (fun sz st -> Model.general_randiter (fun x -> x) sz st))
+      | "gfq" -> (Model.RIGiv, (fun sz st -> Model.gfq_random bits p sz st))
+      | "gf2" -> (Model.RIModular, (fun _ st -> Model.gf2_random st))
       | _ -> failwith "kind") in
-    String.iter (fun c ->
-      if not !dead then match c with
-        | 'r' | 'c' | 'v' | 'R' -> let (a, s') = plain !s in out := sz a :: !out; s := s'
-        | 'n' | 'm' -> (match Model.general_nonzero fuel_nz plain !s with
-            | None -> dead := true
-            | Some (a, s') -> out := sz a :: !out; s := s')
-        | _ -> ()) ops;
-    if !dead then "NONE" else join (List.rev !out)
+    let card = (match kind with "id" -> z0 | _ -> p) in
+    let junk = ref 0 in
+    let mops = List.concat (List.map (fun c -> incr junk; match c with
+        | 'r' | 'c' -> [Model.IDraw (zs (string_of_int (- !junk)))]
+        | 'v' | 'R' -> [Model.IDraw z0]
+        | 'n' | 'm' -> [Model.INzDraw (zs (string_of_int !junk))]
+        | 'C' -> [Model.ICopy]
+        | 'A' -> [Model.IAssignInto (Model.ri_ctor_size cls size card)]
+        | _ -> []) (List.init (String.length ops) (String.get ops))) in
+    (match Model.ri_ctor cls [] (zs seed) size card with
+     | None -> "NONE"
+     | Some st -> (match Model.ri_run fuel_nz draw st mops with
+         | None -> "NONE"
+         | Some (outs, _) -> join (List.map sz outs)))
   | "qf" :: nz :: by_int :: bn :: bd :: rest ->
     let (_, tr) = split_bar [] rest in
     let one den_first =
@@ -204,15 +215,104 @@ let () = run_lines (fun toks ->
       out := ("[" ^ join (List.map sz cs) ^ "]") :: !out; s := s'
     done;
     join (List.rev !out)
-  | "mii" :: size :: p :: cnt :: rest ->
-    let (_, tr) = split_bar [] rest in
-    let (orc, bad, used) = mk_orc tr in
-    let i = ref Model.O and out = ref [] in
-    for _ = 1 to int_of_string cnt do
-      let (x, i') = Model.modint_randiter orc (zs size) (zs p) !i in
-      out := sz x :: !out; i := i'
+  | "mii" :: size :: p :: cnt :: ctor :: nzok :: seed :: rest ->
+    (* constructor: the value GMP is seeded with (first trace token s<value>) and the sampling size kept; then the draw forms *)
+    let (_, tr0) = split_bar [] rest in
+    let (stoks, tr) = List.partition (fun t -> t.[0] = 's') tr0 in
+    let size' = if ctor = "3" then zs size else z0 in
+    (* seed 0 (or the one-argument constructor): the timer seeds the generator; only the sampling size is predicted *)
+    let timer_seeded = is0 (zs seed) in
+    (match Model.mii_ctor [] (if timer_seeded then zs "1" else zs seed) size' (zs p) with
+     | None -> "NONE"
+     | Some (sd, keep) ->
+       let seeding = if timer_seeded then (if List.length stoks = 1 then "" else " ; SEEDING-COUNT(" ^ string_of_int (List.length stoks) ^ ")") else
+         (match stoks with [t] -> if t = "s" ^ sz sd ^ "=0" then "" else " ; SEEDING-MISMATCH(model s" ^ sz sd ^ ", impl " ^ t ^ ")"
+                       | _ -> " ; SEEDING-COUNT(" ^ string_of_int (List.length stoks) ^ ")") in
+       let (orc, bad, used) = mk_orc tr in
+       let i = ref Model.O and out = ref [] and dead = ref false in
+       let period = if nzok = "1" then 7 else 4 in
+       for k = 0 to int_of_string cnt - 1 do
+         if not !dead then begin
+           if k mod period < 4 then begin
+             let (x, i') = Model.modint_randiter orc keep (zs p) !i in out := sz x :: !out; i := i'
+           end else (match Model.modint_nonzero orc (nat (List.length tr + 2)) keep (zs p) !i with
+             | None -> dead := true
+             | Some (x, i') -> out := sz x :: !out; i := i')
+         end
+       done;
+       if !dead then "NONE" else fin (join (List.rev !out)) bad used (List.length tr) ^ seeding)
+  | "riiseed" :: seed :: _ -> (match Model.rii_ctor_seed [] (zs seed) with None -> "NONE" | Some v -> sz v)
+  | "polyseq" :: kind :: p :: seed :: bits :: r0len :: ops ->
+    (* one destination reused; op = letter + number (see harness); E<order> X<order>,<s> B<size> are the Extension front ends *)
+    let p = zs p and bits = zs bits in
+    let junk = (match kind with "mod" -> Model.Z.sub p (zs "1") | "bal" -> zs "-1" | _ -> zs "1") in
+    let r = ref (List.init (int_of_string r0len) (fun _ -> junk)) in
+    let s = ref (Model.giv_ctor_nz (zs seed)) in
+    let out = ref [] and dead = ref false in
+    let show (cs : Model.z list) = string_of_int (List.length cs) ^ " ; " ^ join (List.map sz cs) in
+    let num o = int_of_string (String.sub o 1 (String.length o - 1)) in
+    let req_of (o : string) : Model.preq = (match o.[0] with
+      | 'D' | 'd' -> Model.PDeg (nat (num o))
+      | 'Z' | 'z' -> Model.PDeg0
+      | 'S' | 's' | 'I' -> Model.PSize (nat (num o + 1))
+      | 'L' | 'l' -> Model.PLike (nat (num o + 1))
+      | 'B' -> Model.PLike (nat (num o))
+      | 'E' -> Model.PExt (nat (num o))
+      | 'X' -> let c = String.index o ',' in
+        Model.PExtSize (nat (int_of_string (String.sub o 1 (c - 1))), nat (int_of_string (String.sub o (c + 1) (String.length o - c - 1))))
+      | _ -> failwith "polyseq op") in
+    (* maximal runs of requests on the caller's generator go through Model.poly_seq; an I request uses the iterator's own generator *)
+    let flush (chunk : Model.preq list) =
+      if chunk <> [] && not !dead then begin
+        match kind with
+        | "gfq" -> let (outs, s') = Model.poly_seq_gfq bits p chunk !r !s in
+          List.iter (fun cs -> out := show cs :: !out; r := cs) outs; s := s'
+        | _ -> (match Model.poly_seq fuel_nz (init_of kind p) chunk !r !s with
+            | None -> dead := true
+            | Some (outs, s') -> List.iter (fun cs -> out := show cs :: !out; r := cs) outs; s := s')
+      end in
+    let chunk = ref [] in
+    List.iter (fun o ->
+      if o.[0] = 'I' then begin
+        flush (List.rev !chunk); chunk := [];
+        if not !dead then begin
+          let st = Model.giv_ctor_nz (Model.Z.add (zs seed) (zs "3")) in
+          let d = Model.preq_degree (req_of o) in
+          match kind with
+          | "gfq" -> let (cs, _) = Model.poly_random_gfq_into bits p d !r st in out := show cs :: !out; r := cs
+          | _ -> (match Model.poly_random_into fuel_nz (init_of kind p) d !r st with
+              | None -> dead := true
+              | Some (cs, _) -> out := show cs :: !out; r := cs)
+        end
+      end else chunk := req_of o :: !chunk) ops;
+    flush (List.rev !chunk);
+    if !dead then "NONE" else String.concat " / " (List.rev !out) ^ " | " ^ sz !s
+  | "mgru" :: k :: p :: p1 :: op :: n :: rest ->
+    (* Montgomery<ruint<K>>: stored form and value (convert = mg_reduc) *)
+    let (_, lt) = split_bar [] rest in
+    let limbs = Array.of_list (List.map zs lt) in
+    let lf (i : Model.nat) = let j = int_of_nat i in if j < Array.length limbs then limbs.(j) else z0 in
+    let k = nat (int_of_string k - 6) and p = zs p and p1 = zs p1 in
+    let i = ref Model.O and out = ref [] and dead = ref false in
+    for _ = 1 to int_of_string n do
+      if not !dead then begin
+        match (if op = "nzrandom" then Model.mgru_nonzerorandom (nat (Array.length limbs + 2)) lf k p p1 !i
+               else Some (Model.mgru_random lf k p p1 !i)) with
+        | None -> dead := true
+        | Some ((st, v), i') -> out := (sz st ^ ":" ^ sz v) :: !out; i := i'
+      end
     done;
-    fin (join (List.rev !out)) bad used (List.length tr)
+    if !dead then "NONE" else join (List.rev !out) ^ " ; " ^ string_of_int (int_of_nat !i)
+  | "rmmga" :: k :: p :: p1 :: n :: rest ->
+    let (_, lt) = split_bar [] rest in
+    let limbs = Array.of_list (List.map zs lt) in
+    let lf (i : Model.nat) = let j = int_of_nat i in if j < Array.length limbs then limbs.(j) else z0 in
+    let k = nat (int_of_string k - 6) and p = zs p and p1 = zs p1 in
+    let i = ref Model.O and out = ref [] in
+    for _ = 1 to int_of_string n do
+      let ((st, v), i') = Model.rm_mga_rand lf k p p1 !i in out := (sz st ^ ":" ^ sz v) :: !out; i := i'
+    done;
+    join (List.rev !out) ^ " ; " ^ string_of_int (int_of_nat !i)
   | "ru" :: k :: n :: rest ->
     let (_, lt) = split_bar [] rest in
     let limbs = Array.of_list (List.map zs lt) in
